@@ -397,6 +397,10 @@ def run_scenarios(ctx, scens, props, label):
                 ctx.extra["reinstall_race_forced"] = ctx.extra.get("reinstall_race_forced", 0) + (1 if sc.forced_achieved else 0)
             mlines.append(model_line(sc, labels, tags))
             minfo.append((sc, line, o, obs, names, tags))
+            # the same labels through the machine over the two array heaps (Model/BrokerImpl.v): which proxy a client is
+            # given is then COMPUTED by the model's container/heap, ties included
+            mlines.append(model_line(sc, labels, tags, op="irun"))
+            minfo.append((sc, line, o, obs, names, tags))
     if mlines:
         mout = vlib.run_model(mlines)
         for (sc, line, o, obs, names, tags), ml, mo in zip(minfo, mlines, mout):
@@ -407,6 +411,9 @@ def run_scenarios(ctx, scens, props, label):
                     label, sc.name, mo, ml[:600], o[:400]))
                 continue
             cm = canon_model(parse_obs(mo), names, tags)
+            if ml.startswith("broker irun "):
+                ci = dict(ci, heapU=obs.get("heapU"), heapR=obs.get("heapR"))
+                cm = dict(cm, heapU=parse_obs(mo).get("heapU"), heapR=parse_obs(mo).get("heapR"))
             if ci != cm:
                 diff = {k: (ci.get(k), cm.get(k)) for k in set(ci) | set(cm) if ci.get(k) != cm.get(k)}
                 ctx.not_shown("correspondence %s: scenario %s: model and implementation disagree (impl, model): %s; case=%s" % (
@@ -417,7 +424,8 @@ def run_scenarios(ctx, scens, props, label):
         ctx.extra["vm_compute_crosschecked"] = ctx.extra.get("vm_compute_crosschecked", 0) + len(sample)
         for i in badidx:
             ctx.not_shown("extraction cross-check differs on " + sample[i][0][:300])
-    ctx.extra["traces_validated_against_impl"] = ctx.extra.get("traces_validated_against_impl", 0) + len(mlines)
+    ctx.extra["traces_validated_against_impl"] = ctx.extra.get("traces_validated_against_impl", 0) + len(mlines) // 2
+    ctx.extra["traces_validated_against_array_heap_machine"] = ctx.extra.get("traces_validated_against_array_heap_machine", 0) + len(mlines) // 2
 
 
 # ---------------------------------------------------------------- scenario library
